@@ -17,16 +17,18 @@ func init() {
 }
 
 func checkC05(c *Ctx) {
-	r051(c)
+	r051(c, "R05.1 check-then-install-atomic")
 	r052(c)
 	r053(c, "R05.3 check-covers-all-pairs")
 	r054(c)
 	// "the same pair" means the same thing to the ownership test and to routing
 	rPrefixNormalForm(c, "R05.5 prefix-normal-form")
+	// the ownership test looks a claimed host up in the routing index: the index must be keyed by the hosts as claimed,
+	// every service, every host, every prefix (shared with C04)
+	r044(c, "R05.6 index-keyed-by-the-claimed-hosts")
 }
 
-func r051(c *Ctx) {
-	const rule = "R05.1 check-then-install-atomic"
+func r051(c *Ctx, rule string) {
 	c.floor(rule, 6)
 	li := c.lockInfo()
 	lock := c.field("Router", "serviceLock")
@@ -41,7 +43,11 @@ func r051(c *Ctx) {
 			c.ob(rule, key, u.instr.Pos(), false, true, "ServiceMap.Set used other than by a direct call")
 			continue
 		}
-		c.ob(rule, key+"/write-locked", call.Pos(), li.holds(call, lock, modeW), true, fmt.Sprintf("must hold Router.serviceLock for writing; held: %s", li.before(call)))
+		if !li.holds(call, lock, modeW) && freshUnpublishedAt(c.World, call.Call.Args[0], call) {
+			c.ob(rule, key+"/table-not-yet-published", call.Pos(), true, false, "Set on a table this function created and has not yet handed to anyone: no other goroutine can see it")
+		} else {
+			c.ob(rule, key+"/write-locked", call.Pos(), li.holds(call, lock, modeW), true, fmt.Sprintf("must hold Router.serviceLock for writing; held: %s", li.before(call)))
+		}
 		if o == "(*server.Router).RestoreLastSavedState" {
 			c.ob(rule, key+"/restore-exempt-from-check", call.Pos(), true, false, "reloads a table this proxy wrote (each entry passed the check when it was installed)")
 			continue
